@@ -11,7 +11,8 @@ from ttvc.symex import (VSym, quick_unsat, Unsupported, ContractMismatch, NONE, 
                         VOpaque, Z, is_num, is_z3num, is_intsort, is_boolv, module_ast, strcode, Outcome, NORMAL)
 from ttvc import theory as T
 
-USED = set()          # model-table entries actually used in this process (reported as trusted base)
+USED = set()          # model-table entries actually used by the unit that is running (reset by units.run; reported as trusted base)
+CALLEES_USED = set()  # teneva functions entered THROUGH THEIR CONTRACT by the running unit ('module.function'): their units belong to the same check
 
 
 def used(name):
@@ -59,7 +60,7 @@ FUNCS = {}
 CALLEES = {}
 PURE = {'len', 'int', 'float', 'abs', 'min', 'max', 'isinstance', 'np.isinf', 'np.sqrt', 'np.abs', 'np.max',
         'np.floor', 'np.log2', 'tuple', 'teneva._is_num', 'range', 'np.array', 'np.asanyarray', 'np.linalg.norm',
-        'np.sum', 'np.dot', 'np.ones', 'np.zeros', 'np.arange', 'np.eye', 'bool', 'np.isnan'}
+        'np.sum', 'np.dot', 'np.ones', 'np.zeros', 'np.arange', 'np.eye', 'bool', 'np.isnan', 'np.isfinite'}
 
 
 def is_pure_call(name):
@@ -1168,6 +1169,13 @@ def m_isinf(ex, st, args, kwargs, node):
     used('np.isinf / np.isnan -> False (A-REAL: no infinities or NaN)')
     ex.need_num(st, args[0], node)
     return False
+
+
+@model('np.isfinite')
+def m_isfinite(ex, st, args, kwargs, node):
+    used('np.isfinite of a number -> True (A-REAL: no infinities or NaN)')
+    ex.need_num(st, args[0], node)
+    return True
 
 
 @model('np.sqrt')
